@@ -4,6 +4,7 @@
 -/
 import Plonk.Proofs.CodecRoundtrip
 import Plonk.Proofs.FftDomain
+import Mathlib.Data.List.DropRight
 
 set_option Elab.async false
 
@@ -283,6 +284,10 @@ theorem Poly.trim_length_le (p : Poly) : (Poly.trim p).length ≤ p.length := by
   rw [List.length_reverse]
   exact le_trans (List.dropWhile_sublist _).length_le (by rw [List.length_reverse])
 
+theorem Poly.trim_trim (p : Poly) : Poly.trim (Poly.trim p) = Poly.trim p := by
+  unfold Poly.trim
+  rw [List.reverse_reverse, List.dropWhile_idempotent]
+
 theorem Poly.mem_of_mem_trim {p : Poly} {c : Nat} (h : c ∈ Poly.trim p) : c ∈ p := by
   unfold Poly.trim at h
   rw [List.mem_reverse] at h
@@ -322,7 +327,7 @@ theorem Domain.beq_iff (a b : Domain) : (a == b) = true ↔ a = b := by
 
 /-- a polynomial that was read: at most `n` canonical coefficients, backed by the bytes consumed -/
 theorem pkReadPoly_ok {n : Nat} {r r' : List Nat} {p : Poly} (h : pkReadPoly n r = .ok (p, r')) :
-    (p.length ≤ n ∧ ∀ c ∈ p, c < R) ∧ r'.length + 32 * p.length + 8 ≤ r.length := by
+    (p.length ≤ n ∧ (∀ c ∈ p, c < R) ∧ Poly.trim p = p) ∧ r'.length + 32 * p.length + 8 ≤ r.length := by
   unfold pkReadPoly at h
   split at h
   · cases h
@@ -337,7 +342,7 @@ theorem pkReadPoly_ok {n : Nat} {r r' : List Nat} {p : Poly} (h : pkReadPoly n r
       · have h := Except.ok.inj h
         simp only [Prod.mk.injEq] at h
         obtain ⟨rfl, rfl⟩ := h
-        exact ⟨⟨by simp, by simp⟩, by simp; omega⟩
+        exact ⟨⟨by simp, by simp, rfl⟩, by simp; omega⟩
       · split at h
         · cases h
         · next hlen =>
@@ -348,7 +353,7 @@ theorem pkReadPoly_ok {n : Nat} {r r' : List Nat} {p : Poly} (h : pkReadPoly n r
             obtain ⟨rfl, rfl⟩ := h
             obtain ⟨i1, _, _, i4, _⟩ := readScalars_decode hrs
             have t1 := Poly.trim_length_le cs
-            refine ⟨⟨by omega, fun c hc => i4 c (Poly.mem_of_mem_trim hc)⟩, ?_⟩
+            refine ⟨⟨by omega, fun c hc => i4 c (Poly.mem_of_mem_trim hc), Poly.trim_trim cs⟩, ?_⟩
             rw [List.length_drop]; omega
           · cases h
 
@@ -448,6 +453,7 @@ structure PKeyRaw.WF (k : PKeyRaw) (d8 : Domain) : Prop where
   npolys : k.polys.size = 15
   nevals : k.evals.size = 15
   polys : ∀ p ∈ k.polys.toList, p.length ≤ k.n ∧ ∀ c ∈ p, c < R
+  trimmed : ∀ p ∈ k.polys.toList, Poly.trim p = p
   evals : ∀ e ∈ k.evals.toList, e.length = k.n * 8 ∧ ∀ c ∈ e, c < R
   lin : d8.matchesLinearOverCoset k.lin = true
   vh : d8.matchesVanishingOverCoset k.n k.vh = true
@@ -503,7 +509,7 @@ theorem PKeyRaw.fromBytes_wf {bs : List Nat} {k : PKeyRaw} (h : PKeyRaw.fromByte
                       have h := Except.ok.inj h
                       subst h
                       obtain ⟨lp, le, e1, e2, l1, l2, a1, a2, bd⟩ :=
-                        PKeyRaw_go_ok (PP := fun p => p.length ≤ n ∧ ∀ c ∈ p, c < R)
+                        PKeyRaw_go_ok (PP := fun p => p.length ≤ n ∧ (∀ c ∈ p, c < R) ∧ Poly.trim p = p)
                           (PE := fun e => e.length = d8.size ∧ ∀ c ∈ e, c < R)
                           (fun r p r' hr => pkReadPoly_ok hr) (fun r e r' hr => pkReadEvals_ok hr) hgo'
                       obtain ⟨⟨ll1, ll2⟩, bl⟩ := pkReadEvals_ok hlin'
@@ -526,7 +532,11 @@ theorem PKeyRaw.fromBytes_wf {bs : List Nat} {k : PKeyRaw} (h : PKeyRaw.fromByte
                           dom := hd8, pow2 := hnp, size8 := hs8
                           npolys := by show ps.size = 15; rw [← Array.length_toList, e1, l1]
                           nevals := by show es.size = 15; rw [← Array.length_toList, e2, l2]
-                          polys := by intro p hp; exact a1 p (by rw [← e1]; exact hp)
+                          polys := by
+                            intro p hp
+                            have := a1 p (by rw [← e1]; exact hp)
+                            exact ⟨this.1, this.2.1⟩
+                          trimmed := by intro p hp; exact (a1 p (by rw [← e1]; exact hp)).2.2
                           evals := by
                             intro e he
                             have := a2 e (by rw [← e2]; exact he)
